@@ -34,6 +34,9 @@ pub fn recover_after<T>(token: T) -> Recover<T>
 
     Rc::new(RwLock::new(move |next_token| {
         if found {
+            // Reset, so that the same `Recover` can be used again for a later
+            // recovery.
+            found = false;
             Ok(true)
         } else {
             found = next_token == token;
@@ -61,6 +64,9 @@ pub fn recover_after_any<T, I>(tokens: I) -> Recover<T>
 
     Rc::new(RwLock::new(move |next_token| {
         if found {
+            // Reset, so that the same `Recover` can be used again for a later
+            // recovery.
+            found = false;
             Ok(true)
         } else {
             found = tokens.contains(&next_token);
